@@ -153,17 +153,17 @@ def run(ctx, replay_case=None):
     # thorough: MC <= 3 deviations (3rd in a core field, utf-8 names) and all pairs under both name schemes; replay all pairs
     PROM, BOTH = tla_set(["prometheus"]), tla_set(["prometheus", "thanos"])
     if thorough:
-        mc = ctx.tlc("StrictSchema", "c01_mc.cfg", timeout=3300, allow_violation=True, tag="mc-dev3-core",
+        mc = ctx.tlc("StrictSchema", "c01_mc.cfg", timeout=3300, allow_violation=True, heap="3g", workers=12, tag="mc-dev3-core",
                      files={"c01_mc.cfg": CFG % (3, tla_set(["utf8"]), PROM, "TRUE", tla_set(gaps), "Inv_C01_ModuloKnown Inv_Count")})
-        mc2 = ctx.tlc("StrictSchema", "c01_mc2.cfg", timeout=3300, allow_violation=True, tag="mc-dev2+gen",
+        mc2 = ctx.tlc("StrictSchema", "c01_mc2.cfg", timeout=3300, allow_violation=True, heap="3g", workers=12, tag="mc-dev2+gen",
                       files={"c01_mc2.cfg": CFG % (2, tla_set(names_all), PROM, "FALSE", tla_set(gaps), "Inv_C01_ModuloKnown Inv_Count EmitCase")})
-        mc3 = ctx.tlc("StrictSchema", "c01_mc3.cfg", timeout=3300, allow_violation=True, tag="mc-dev2-thanos-core+gen",
+        mc3 = ctx.tlc("StrictSchema", "c01_mc3.cfg", timeout=3300, allow_violation=True, heap="3g", workers=12, tag="mc-dev2-thanos-core+gen",
                       files={"c01_mc3.cfg": CFG % (2, tla_set(["utf8"]), tla_set(["thanos"]), "TRUE", tla_set(gaps), "Inv_C01_ModuloKnown Inv_Count EmitCase")})
         mcs, gens = [mc, mc2, mc3], [mc2, mc3]
     else:
-        mc = ctx.tlc("StrictSchema", "c01_mc.cfg", timeout=900, allow_violation=True, tag="mc-dev2-utf8+gen",
+        mc = ctx.tlc("StrictSchema", "c01_mc.cfg", timeout=900, allow_violation=True, heap="3g", tag="mc-dev2-utf8+gen",
                      files={"c01_mc.cfg": CFG % (2, tla_set(["utf8"]), PROM, "FALSE", tla_set(gaps), "Inv_C01_ModuloKnown Inv_Count EmitCase")})
-        mc2 = ctx.tlc("StrictSchema", "c01_mc2.cfg", timeout=900, allow_violation=True, tag="mc-dev1-all-schemes+gen",
+        mc2 = ctx.tlc("StrictSchema", "c01_mc2.cfg", timeout=900, allow_violation=True, heap="3g", tag="mc-dev1-all-schemes+gen",
                       files={"c01_mc2.cfg": CFG % (1, tla_set(names_all), BOTH, "FALSE", tla_set(gaps), "Inv_C01_ModuloKnown Inv_Count EmitCase")})
         mcs, gens = [mc, mc2], [mc, mc2]
     leads = [m["invariant_violated"] for m in mcs if m["invariant_violated"]]
